@@ -5,8 +5,8 @@ from . import cu
 
 MODULES = ['DsdVerif.Props.C09']
 GEN_FILES = []
-THEOREM_NAMES = ['split_partition', 'split_pairs', 'split_parts_connected', 'split_connected_id']
-THEOREMS = []
+THEOREM_NAMES = ['split_spec', 'split_connected_id', 'split_fuel_mono', 'split_parts_wellformed']
+THEOREMS = ['Dsd.C09.' + t for t in THEOREM_NAMES]
 ASSUMPTIONS = [
     'split_complex_pt is hand-modelled (Model/Complex.lean: splitScan, splice, splitPt with fuel = number of strands + 1) and tied to '
     'the code by the correspondence stream `split`',
@@ -14,13 +14,16 @@ ASSUMPTIONS = [
     'pre-existing components (named / automatically named) and automatic-name collisions',
 ]
 MANIFEST = {
-    'text': 'Partial. The Lean model of split_complex_pt (same scan, same splice, recursion bounded by the number of strands) is tied to '
-            'the code by exhaustive correspondence over every well-formed structure up to a bounded size; the theorems present at this '
-            'commit are listed in the evidence; component exactness (parts = union-find classes, strands in cyclic order, pairs '
-            'preserved, parts connected, connected input unchanged) and the object-level contract of split() are decided on the real '
-            'code by an independent oracle over all structures and all subsets of pre-existing components.',
-    'note': 'Statements not yet closed in Lean are named in the evidence (coverage.open_theorems).',
-    'technique': 'Lean 4 model + correspondence check; independent union-find oracle; object-level history enumeration',
+    'text': 'Full for the utility: split_spec (for every well-formed structure the split succeeds; the parts partition the strands, each '
+            'part keeps its strands in their original order with unchanged content, carries exactly the original base pairs re-indexed '
+            'and no others, is closed under pairing and connected - hence the parts are the connected components), '
+            'split_connected_id (a connected complex is returned unchanged), split_parts_wellformed, split_fuel_mono; all for any '
+            'number and nesting of components. The model is tied to split_complex_pt / split_complex_db by exhaustive correspondence; '
+            'the object-level contract of split() (singleton of every component, identical objects on a second split, SingletonError '
+            'only on an automatic-name collision) is decided on the real code over every subset of pre-existing components, and its '
+            'singleton part rests on the C01/C02 theorems.',
+    'note': 'The object-level split() is checked by the history oracle, not by a separate Lean theorem; trusted base as in DESIGN.md 3.',
+    'technique': 'Lean 4 proof by strong induction on the number of strands (splice preserves well-formed matchings); correspondence check; union-find oracle',
 }
 
 
